@@ -5,6 +5,7 @@ pub mod c02;
 pub mod c03;
 pub mod c04;
 pub mod c11;
+pub mod c12;
 pub mod c13;
 pub mod c14;
 pub mod c15;
@@ -55,6 +56,7 @@ dispatch! {
     "C03" => c03,
     "C04" => c04,
     "C11" => c11,
+    "C12" => c12,
     "C13" => c13,
     "C14" => c14,
     "C15" => c15,
